@@ -23,6 +23,7 @@ std::string LocName(const void *p);                // registered / tracked name,
 int LiveTracked(const char *cls);                  // number of live tracked blocks of a class
 void SetNoBranch(bool on);                         // steps taken while on are not branching points of the DFS
 void BlockUntil(const std::function<bool()> &pred);  // harness-level wait (barrier, hand-over)
+extern void (*g_exit_op_hook)(const void *loc, int op);  // called after every atomic operation of a thread-exit destructor
 
 // ---- program / driver interface -----------------------------------------------------------
 struct Op {
